@@ -43,6 +43,8 @@ def transform_ops(P):
 
 
 def rules(ck, P):
+    from . import boxalg as _boxalg
+    _boxalg.box_core_rules(ck, P)
     ops = transform_ops(P)
     ck.anchor("R-FILTER", "transform operations", ops, 3)
     for impl, srcf, fields in ops:
